@@ -126,6 +126,61 @@ def late_declaration_family(viol, stats):
     stats["directed"] = stats.get("directed", 0) + 1
 
 
+def second_look_family(viol, stats):
+    """A second branch of the same `redo -j2` looks at a checksummed target T while T's script is under way — before it has
+    called redo-stamp, and after (redo-stamp commits its marks at once, the file is installed and recorded only when the
+    script ends) — with T's old file still in place or removed by the user, T's source changed or not (a removed T
+    then comes back with the same checksum).  W.do waits for the
+    phase marker and then asks for B, whose only dependency is T.  In every case: T's script runs at most once in the
+    command, nothing fails, and A, B hold what a serial build gives."""
+    res = []
+    for phase in ("before-stamp", "after-stamp"):
+        for state in ("in-place", "removed", "removed, source unchanged"):
+            pr = Project()
+            try:
+                pr.write("src", "hello\n")
+                pr.write("T.do", 'echo run >>"$PWD/T.runs"\nredo-ifchange src\n: >"$PWD/T.started"\nsleep ${T_HEAD:-0}\ncat src >$3\nredo-stamp <$3\n: >"$PWD/T.stamped"\nsleep ${T_TAIL:-0}\n')
+                pr.write("A.do", "redo-ifchange T\nsed 's/^/a:/' T >$3\n")
+                pr.write("B.do", "redo-ifchange T\nsed 's/^/b:/' T >$3\n")
+                marker = "T.started" if phase == "before-stamp" else "T.stamped"
+                pr.write("W.do", 'n=0\nwhile [ ! -e %s ] && [ $n -lt 300 ]; do sleep 0.05; n=$((n+1)); done\nsleep 0.2\nredo-ifchange B\necho w >$3\n' % marker)
+                r1 = sched.run_cmds(pr, [["redo", "A", "B"]], timeout=60)[0]
+                runs1 = (pr.read("T.runs") or b"").count(b"run")
+                # T has to run again: its source changes; its old file stays, or the user removes it
+                text = b"hello\n" if state.endswith("unchanged") else b"hello again\n"
+                if not state.endswith("unchanged"):
+                    pr.write("src", "hello again\n")
+                if state.startswith("removed"):
+                    pr.rm("T")
+                for f in ("T.runs", "T.started", "T.stamped"):
+                    pr.rm(f)
+                env = dict(T_HEAD="1.5") if phase == "before-stamp" else dict(T_TAIL="1.5")
+                r2 = sched.run_cmds(pr, [["redo", "-j2", "A", "W"]], timeout=60, env=env)[0]
+                runs2 = (pr.read("T.runs") or b"").count(b"run")
+                stats["builds"] += 2
+                out = _outcome(pr, ["T", "A", "B"])
+                want = {"T": text, "A": b"a:" + text, "B": b"b:" + text}
+                problems = []
+                if r1.rc != 0 or runs1 != 1:
+                    problems.append("first build: exit %d, T's script ran %d time(s)" % (r1.rc, runs1))
+                if r2.timed_out or r2.rc != 0:
+                    problems.append("`redo -j2 A W` exited %s" % r2.rc)
+                if runs2 > 1:
+                    problems.append("T's script ran %d times in one `redo -j2 A W`" % runs2)
+                if not problems and out != want:
+                    problems.append("contents afterwards %r, a serial build gives %r" % ({k: v for k, v in out.items() if v != want[k]}, {k: want[k] for k in out if out[k] != want[k]}))
+                res.append((phase, state, runs2))
+                if problems:
+                    p = write_replay("C07", "second-look", dict(kind="impl-monitor", phase=phase, old_file=state, problems=problems, stderr=r2.err[-1500:],
+                                                                scenario="T.do: redo-ifchange src; [sleep]; cat src >$3; redo-stamp <$3; [sleep].  A.do, B.do: redo-ifchange T.  W.do: wait for T's phase marker; redo-ifchange B.  redo A B; %s%s; redo -j2 A W" % ("" if state.endswith("unchanged") else "edit src", "; rm T" if state.startswith("removed") else "")))
+                    viol.append(Violation("C07", p, "a second branch looks at a checksummed target %s its redo-stamp (old file %s): %s" % ("before" if phase == "before-stamp" else "after", state, "; ".join(problems))))
+                    return
+            finally:
+                pr.destroy()
+    stats["second_look"] = res
+    stats["directed"] = stats.get("directed", 0) + 1
+
+
 def keep_going_locked_sibling_family(viol, stats):
     """--keep-going with a failing target and, in the same command, a target that another job is building at the moment:
     the command must still report the failure (same status class as the serial build, the dependent not built), and its
@@ -292,6 +347,8 @@ def run(ctx):
         late_declaration_family(viol, stats)
     if not viol:
         keep_going_locked_sibling_family(viol, stats)
+    if not viol:
+        second_look_family(viol, stats)
     return dict(evaluations=stats["builds"], distinct_nontrivial=stats["projects"],
                 rule="seeded random graphs of 4-12 targets (chains, diamonds, fans, layers; checksummed and always targets; 25% with failing scripts; script durations 0-120 ms) each built from scratch and rebuilt after a leaf change in fresh copies with -j1, -jN, -jN --shuffle, -j1 --shuffle; every run's job events replayed through the Lean acceptor Once.step; outcomes compared with the serial build; distinct = projects",
                 samples=samples, traces_validated_against_impl=stats["builds"], distribution=stats)
